@@ -224,6 +224,22 @@ def imm_returns(a, p, ex):
   return mk('M')
 
 
+def _imm_cov_clause(a):
+  loc = getattr(a.path, 'final_locals', {})
+  X, Mi, V = loc.get('X'), loc.get('M_inv'), loc.get('V')
+  st = a.path.store
+  if not all(isinstance(v, VArr) for v in (X, Mi, V)):
+    return z3.BoolVal(False)
+  xt, mt, vt, it = st[X.loc].term, st[Mi.loc].term, st[V.loc].term, a.input.term
+  if any(t is None for t in (xt, mt, vt, it)):
+    return z3.BoolVal(False)
+  want_x = TH.unique_rows(TH.vstack3(it)) if a.input.st.shape.rank == 3 else it
+  pin = [e for e in a.path.events if e[0] == 'call' and e[1] == '_util:_pseudo_inverse_from_eig']
+  ok = xt.eq(want_x) and (mt.eq(TH.atleast2d(TH.cov(xt))) or mt.eq(TH.cov(xt))) and vt.eq(TH.eigvecs(mt)) \
+      and len(pin) == 1 and isinstance(pin[0][2].get('V'), VArr) and pin[0][2]['V'].loc == V.loc
+  return z3.BoolVal(bool(ok))
+
+
 def imm_bad(a):
   return isinstance(a.init, str) and a.init not in ('identity', 'covariance', 'random')
 
@@ -241,6 +257,9 @@ register(Contract(
         # C19: the prior / initial matrix does not change when all training points are translated (identity, random and array do
         # not look at the data; 'covariance' only through np.cov of the distinct points)
         'translation-invariant': lambda a, r: None if imm_bad(a) else z3.BoolVal(all(m.tt == 'inv' for m in imm_mats(a, r))),
+        # C20 ("'covariance' the (pseudo-)inverse covariance of the DISTINCT training points"): what is decomposed and pseudo-inverted is
+        # np.cov of the de-duplicated points of the tuples (of the points themselves for 2-D input), and nothing else
+        'covariance-option-is-of-the-distinct-points': body_only(lambda a, r: None if a.init != 'covariance' else _imm_cov_clause(a)),
         # C11 / C20: with strict_pd the returned matrix is positive definite
         # (not claimed for init='covariance': positive definiteness of the pseudo-inverse built by _pseudo_inverse_from_eig is a value-level
         #  fact of that helper which is not under a value-level contract)
